@@ -1014,6 +1014,11 @@ class _GenerateRenderMethod:
             def visitCallNamespaceTag(s, node):
                 pass
 
+            def visitControlLine(s, node):
+                # the nodes inside a control structure are also members
+                # of the node list they were written in; visit them once
+                pass
+
             def visitDefOrBase(s, node):
                 self.write_inline_def(node, callable_identifiers, nested=False)
                 if not node.is_anonymous:
